@@ -80,6 +80,18 @@ def correspondence(R, ctx, reqs, impl, model, what="events, pull counts, outcome
     R.coverage["correspondence_compares"] = what
     return bad
 
+def warn_correspondence(R, ctx, cases, what):
+    """the same inputs in warn mode: model vs implementation only (events, warnings, pull counts, outcome)"""
+    sample = cases if ctx["tier"] != "quick" else R.rng.sample(cases, min(len(cases), 400))
+    r0, _ = engine(R, ctx, sample, modes=("0",))
+    reqs0, impl0, model0 = r0["0"]
+    bad0 = [k for k in range(len(reqs0)) if norm_crash(impl0[k]) != norm_crash(model0[k])]
+    R.coverage.update({"warn_mode_correspondence_cases": len(reqs0), "warn_mode_correspondence_disagreements": len(bad0)})
+    for k in bad0:
+        R.violation("correspondence:warn", "model and implementation differ in warn mode on `%s` (%s)" % (reqs0[k][:160], what),
+                    {"request": reqs0[k], "implementation": impl0[k][:3000], "model": model0[k][:3000], "theorem": "correspondence Model/* (warn mode)"}, found_input=False)
+        break
+
 
 def report_disagreements(R, ctx, reqs, impl, model, bad, oracle_flagged):
     """a disagreement where the oracle saw nothing wrong: the model no longer describes the code"""
@@ -294,6 +306,7 @@ def c05(R, ctx):
                 origin.append(k)
     res, _ = engine(R, ctx, cases, modes=("1",))
     reqs, impl, model = res["1"]
+    warn_correspondence(R, ctx, cases, "cuts and surplus: in warn mode the length mismatch is the last warning")
     flagged = set()
     for j, c in enumerate(cases):
         full_line = full_res["1"][1][origin[j]]
@@ -479,6 +492,7 @@ def c10(R, ctx):
             origin.append(k)
     res, _ = engine(R, ctx, cases, modes=("1",))
     reqs, impl, model = res["1"]
+    warn_correspondence(R, ctx, cases, "prefixes: events, pull count of every event")
     flagged = set()
     for j, c in enumerate(cases):
         ie, io = split_result(impl[j])
